@@ -228,9 +228,9 @@ def tasks(tier, seed):
         t.append(('sweep_days', dict(start=s, end=min(s + step, hi), full=full)))
     k = 8 if not full else 16
     for i in range(k):
-        t.append(('hyp_roundtrip', dict(n=200 if not full else 2500, generated=False)))
+        t.append(('hyp_roundtrip', dict(n=400 if not full else 2500, generated=False)))
     for i in range(k):
-        t.append(('hyp_roundtrip', dict(n=150 if not full else 2000, generated=True)))
+        t.append(('hyp_roundtrip', dict(n=300 if not full else 2000, generated=True)))
     return t
 
 
